@@ -7,6 +7,7 @@
 package main
 
 import (
+	"encoding/json"
 	"errors"
 	"fmt"
 	"io"
@@ -428,6 +429,30 @@ func main() {
 				}
 			}, func(*explore.Run) {}, &st)
 			r.Transitions += st.Transitions
+		}
+	}
+	// harness B: cmd.saveOutputs under the same scheduler (explored by a test inside package main)
+	if hb := os.Getenv("VERIF_C20B"); strings.HasPrefix(hb, "{") {
+		var b struct {
+			Runs, Transitions, Scenarios, Bound int
+			Failures                            []struct{ Clause, Scenario, Schedule, Detail, Trace string }
+			Sample                              []string
+		}
+		if err := json.Unmarshal([]byte(hb), &b); err != nil {
+			r.Internal("harness B result: " + err.Error())
+		} else {
+			r.Extra["harness_B_saveOutputs"] = map[string]any{"schedules": b.Runs, "transitions": b.Transitions, "scenarios": b.Scenarios, "deviation_bound": b.Bound, "sample": b.Sample}
+			r.Evaluations += b.Runs
+			r.TracesImpl += b.Runs
+			r.Transitions += b.Transitions
+			for _, f := range b.Failures {
+				r.Fail(evid.Failure{Clause: "C20/" + f.Clause, Sig: "saveOutputs: " + f.Clause, Detail: fmt.Sprintf("harness B (cmd.saveOutputs), scenario %s, schedule %s: %s\ntrace: %s", f.Scenario, f.Schedule, f.Detail, f.Trace), Family: "F-sched"})
+			}
+		}
+	} else {
+		r.Extra["harness_B_saveOutputs"] = os.Getenv("VERIF_C20B")
+		if os.Getenv("VERIF_C20B") != "" {
+			r.Internal("harness B did not run: " + os.Getenv("VERIF_C20B"))
 		}
 	}
 	race := os.Getenv("VERIF_C20_RACE")
